@@ -11,7 +11,6 @@ use crate::{
         ViewLayoutStore, ViewMutLayout,
     },
 };
-use rasterize::RGBA;
 use std::{
     cmp::{max, min},
     collections::HashMap,
@@ -195,6 +194,30 @@ enum CellMark {
     Damaged,
 }
 
+/// Area of the terminal occupied by the cell placed at the given position, not
+/// counting the cell itself in the case of a character: the whole area under
+/// the image, columns behind the wide character.
+fn cell_extent(
+    cell: &Cell,
+    pos: Position,
+    pixels_per_cell: Size,
+) -> (std::ops::Range<usize>, std::ops::Range<usize>) {
+    match &cell.kind {
+        CellKind::Image(image) => {
+            let size = image.size_cells(pixels_per_cell);
+            (
+                pos.row..pos.row + size.height,
+                pos.col..pos.col + size.width,
+            )
+        }
+        CellKind::Char(character) => {
+            let width = character.width().unwrap_or(0);
+            (pos.row..pos.row + 1, pos.col + 1..pos.col + width)
+        }
+        CellKind::Glyph(_) => (pos.row..pos.row, pos.col..pos.col),
+    }
+}
+
 pub type TerminalSurface<'a> = SurfaceMutView<'a, Cell>;
 
 /// Terminal renderer
@@ -267,13 +290,13 @@ impl TerminalRenderer {
     pub fn frame<T: Terminal + ?Sized>(&mut self, term: &mut T) -> Result<(), Error> {
         // clear hoisted locals
         self.images.clear();
-        self.marks.fill(CellMark::Empty);
 
         // First pass
         //
         // - Replace glyphs with images in the front buffer
         // - Erase changed images
         // - Record images that we need to render
+        let pixels_per_cell = self.size.pixels_per_cell();
         for ((pos, old), new) in self.back.iter().with_position().zip(self.front.iter_mut()) {
             // replace glyphs with images
             if let CellKind::Glyph(glyph) = &new.kind {
@@ -291,49 +314,34 @@ impl TerminalRenderer {
             // skip cells that have not changed, go over ignored items too as they
             // might remove old images.
             if old == new && self.marks.get(pos) != Some(&CellMark::Damaged) {
-                // cell under the image needs to be marked as ignored
-                if let CellKind::Image(image) = &new.kind {
-                    let size = image.size_cells(self.size.pixels_per_cell());
-                    self.marks
-                        .view_mut(
-                            pos.row..pos.row + size.height,
-                            pos.col..pos.col + size.width,
-                        )
-                        .fill(CellMark::Ignored);
-                }
+                // cells under the image and behind the wide character need to
+                // be marked as ignored
+                let (rows, cols) = cell_extent(new, pos, pixels_per_cell);
+                self.marks.view_mut(rows, cols).fill(CellMark::Ignored);
                 continue;
             }
 
-            // erase and damage area under old image
+            // erase old image and damage area that was occupied by the old cell
             if let CellKind::Image(image) = &old.kind {
                 term.execute(TerminalCommand::ImageErase(image.clone(), Some(pos)))?;
-                let size = image.size_cells(self.size.pixels_per_cell());
-                self.marks
-                    .view_mut(
-                        pos.row..pos.row + size.height,
-                        pos.col..pos.col + size.width,
-                    )
-                    .fill(CellMark::Damaged);
             }
+            let (rows, cols) = cell_extent(old, pos, pixels_per_cell);
+            self.marks.view_mut(rows, cols).fill(CellMark::Damaged);
 
-            // record image to be rendered, and mark area under the image to be ignored
+            // record image to be rendered, and mark area occupied by the new cell to be ignored
             if let CellKind::Image(image) = &new.kind {
                 self.images.push((pos, new.face, image.clone()));
-                let size = image.size_cells(self.size.pixels_per_cell());
-                self.marks
-                    .view_mut(
-                        pos.row..pos.row + size.height,
-                        pos.col..pos.col + size.width,
-                    )
-                    .fill(CellMark::Ignored);
             }
+            let (rows, cols) = cell_extent(new, pos, pixels_per_cell);
+            self.marks.view_mut(rows, cols).fill(CellMark::Ignored);
         }
 
         // Second pass
         //
         // Render or characters
-        let mut face = Face::default().with_bg(Some(RGBA::new(1, 2, 3, 255)));
-        let mut cursor = Position::new(123_456, 654_123);
+        // nothing is known about the face and the cursor of the terminal yet
+        let mut face: Option<Face> = None;
+        let mut cursor: Option<Position> = None;
 
         let mut pos = Position::origin();
         while pos.row < self.front.height() {
@@ -360,13 +368,13 @@ impl TerminalRenderer {
                 }
 
                 // update face and cursor
-                if face != new.face {
-                    face = new.face;
-                    term.execute(TerminalCommand::Face(face))?;
+                if face != Some(new.face) {
+                    face = Some(new.face);
+                    term.execute(TerminalCommand::Face(new.face))?;
                 }
-                if cursor != pos {
-                    cursor = pos;
-                    term.execute(TerminalCommand::CursorTo(cursor))?;
+                if cursor != Some(pos) {
+                    cursor = Some(pos);
+                    term.execute(TerminalCommand::CursorTo(pos))?;
                 }
 
                 if matches!(character, ' ') {
@@ -390,15 +398,15 @@ impl TerminalRenderer {
                         // NOTE: erase is not moving cursor
                         term.execute(TerminalCommand::EraseChars(repeats))?;
                     } else {
-                        cursor.col += repeats;
+                        cursor = Some(pos);
                         for _ in 0..repeats {
                             term.execute(TerminalCommand::Char(' '))?;
                         }
                     }
                 } else {
                     term.execute(TerminalCommand::Char(*character))?;
-                    cursor.col += character_width;
                     pos.col += character_width;
+                    cursor = Some(pos);
                 }
             }
             pos.col = 0;
@@ -422,9 +430,13 @@ impl TerminalRenderer {
         }
 
         // Flip and clear buffers
+        //
+        // Marks are reset only here, as marks set by `clear` and `new` must
+        // be visible to this frame to force full repaint.
         self.frame_count += 1;
         std::mem::swap(&mut self.front, &mut self.back);
         self.front.clear();
+        self.marks.fill(CellMark::Empty);
 
         Ok(())
     }
